@@ -314,6 +314,11 @@ def run(chk):
     cases.append(((4, 4), 8, ("tsl", [[2, 2], [2, 2]], [[8, 2], [4, 1]], 0), ("tsl", [[2, 2], [2, 2]], [[1, 4], [2, 8]], 0)))
     cases.append(((4, 8), 8, ("tsl", [[4], [2, 2, 2]], [[8], [4, 2, 1]], 0), ("tsl", [[4], [2, 2, 2]], [[1], [4, 8, 16]], 0)))
     # dynamic shapes
+    # sub-byte elements with strides only known at run time
+    for elw in (1, 4):
+        cases.append(((None, 4), elw, ("strided", [None, 1], 0), ("id",)))
+        cases.append(((None, 8), elw, ("id",), ("strided", [None, 1], 0)))
+        cases.append(((4, 8), elw, ("strided", [None, 1], 0), ("tsl", [[2, 2], [2, 4]], [[16, 4], [8, 1]], 0)))
     # broadcast sources: a static stride of 0 (one row / one element replicated)
     for elw in (8, 32):
         cases.append(((4, 8), elw, ("strided", [0, 1], 0), ("id",)))
